@@ -12,7 +12,7 @@ PROP = "C15"
 LEVEL = "exploration"
 RULE = (
     "complete product: scale method in {std,iqr,mad,doublemad,diffcov,biweight,qn,sn,gapper,norm} x loc in {median,mean,norm} x axis in "
-    "{None,0,1} x shapes {(16,),(8,12),(9,8)} x data class {normal, ties, constant, outlier, constant-lane} x affine maps a in "
+    "{None,0,1} x shapes {(16,),(8,12),(9,8)} x data class {normal, ties, constant, outlier, constant-lane, majority-ties} x affine maps a in "
     "{-100,-3,-0.01,0.01,2,100}, b in {0,-7|a|,50|a|}: (i) per-axis estimate == the 1-D estimator applied lane by lane, result broadcasts "
     "against the input; (ii) scale(a x+b) == |a| scale(x), z(a x+b) == sign(a) z(x) on lanes with a safely non-zero scale; (iii) all z-scores "
     "finite. Non-trivial = every case with axis handling (2-D) or a non-identity map"
@@ -27,7 +27,7 @@ REQUIRED_OUTCOMES = ["axis/ok", "equivariance/ok", "finite/ok", "finite/zero_sca
 SCALES = ["std", "iqr", "mad", "doublemad", "diffcov", "biweight", "qn", "sn", "gapper"]
 LOCS = ["median", "mean"]
 SHAPES = [(16,), (8, 12), (9, 8)]
-CLASSES = ["normal", "ties", "constant", "outlier", "const_lane"]
+CLASSES = ["normal", "ties", "constant", "outlier", "const_lane", "majority_ties"]
 AS = [-100.0, -3.0, -0.01, 0.01, 2.0, 100.0]
 BS = [0.0, -7.0, 50.0]
 
@@ -57,6 +57,17 @@ def _data(cls, shape, seed):
         x = rng.normal(0.0, 1.0, shape)
         x.flat[3] = 1e4
         x.flat[x.size - 2] = -3e3
+    elif cls == "majority_ties":
+        # > 50% of every lane equals the lane median (zero MAD -> the mean-absolute-deviation fallback), lanes differ in spread
+        x = rng.normal(0.0, 1.0, shape)
+        if len(shape) == 2:
+            x *= (1 + np.arange(shape[0]))[:, None] * (1 + 0.5 * np.arange(shape[1]))[None, :]
+        x[rng.random(shape) < 0.62] = 5.0
+        if len(shape) == 2:
+            x[:, ::2] = 5.0
+            x[::2, :] = 5.0 if shape[0] > 8 else x[::2, :]
+            x[1::2, 1::2] = rng.normal(0.0, 1.0, x[1::2, 1::2].shape) * (1 + np.arange(x[1::2, 1::2].shape[0]))[:, None]
+            x[1::2, 1::4] = 5.0
     else:
         x = rng.normal(1.0, 1.5, shape)
         if len(shape) == 2:
